@@ -55,10 +55,13 @@ func (t *T) Op(op string, observed string) {
 	}
 	t.Dist["op:"+w]++
 	o := observed
-	if i := strings.IndexAny(o, " ,:;="); i > 0 {
+	if strings.HasPrefix(o, "err ") {
+		f := strings.Fields(o)
+		o = "err_" + f[1]
+	} else if i := strings.IndexAny(o, " ,:;="); i > 0 {
 		o = o[:i]
 	}
-	if len(o) <= 12 && !strings.ContainsAny(o, "0123456789") {
+	if len(o) <= 20 && !strings.ContainsAny(o, "0123456789") {
 		t.Dist["out:"+w+":"+Enc(o)]++
 	}
 }
